@@ -454,10 +454,29 @@ fn trace_counting(
     non_root_list: &mut LinkedList,
     queue: &mut LinkedQueue,
 ) {
+    // If tracing panics, the objects still inside possible_cycles may have already been reached (and counted)
+    // by the objects traced so far. Reset their tracing counters, since the next collection expects them to be zero
+    struct ResetTracingCountersGuard<'a> {
+        possible_cycles: &'a PossibleCycles,
+    }
+
+    impl Drop for ResetTracingCountersGuard<'_> {
+        #[inline]
+        fn drop(&mut self) {
+            self.possible_cycles.iter().for_each(|ptr| {
+                unsafe { ptr.as_ref() }.counter_marker().reset_tracing_counter();
+            });
+        }
+    }
+
+    let reset_guard = ResetTracingCountersGuard { possible_cycles };
+
     while let Some(ptr) = possible_cycles.remove_first() {
         // The tracing counter has already been reset by add_to_list(...)
         __trace_counting(ptr, root_list, non_root_list, queue);
     }
+
+    mem::forget(reset_guard); // possible_cycles is empty now
 
     while let Some(ptr) = queue.poll() {
         // The tracing counter has already been reset by CcBox::trace when ptr was inserted into the queue
